@@ -396,9 +396,15 @@ class BVReduceBW:
         bws = sorted(set([bw - 1, bw // 2, 2, 1]))
         for b in bws:
             if 0 < b < bw:
-                varname = '_{}'.format(node[1])
-                while is_declared(varname):
-                    varname = '_' + varname
+                if is_piped_symbol(node[1]):
+                    # keep the prefix inside of the quotes: |_name|
+                    varname = '|_{}|'.format(get_piped_symbol(node[1]))
+                    while is_declared(varname):
+                        varname = '|_' + varname[1:]
+                else:
+                    varname = '_{}'.format(node[1])
+                    while is_declared(varname):
+                        varname = '_' + varname
                 var = Node('declare-const', varname, Node('_', 'BitVec', b))
                 zext = Node('define-fun', node[1], (), get_sort(node[1]),
                             Node(Node('_', 'zero_extend', bw - b), varname))
